@@ -80,6 +80,14 @@ def generated_items(seed, tier, bias, scale=1.0):
             for _ in range(rng.randint(2, 6)):
                 e = f"({e} {rng.choice(gen.BINOPS)} {rng.choice([r, r, 'RtV', '3'])})"
             items.append(dict(name=f"reuse{i}", text=f"{{ int32_t q = {r}; RddV = {e} + q + q; if ({r} > q) {{ ReV = q + {r}; }} }}"))
+    # truth values (comparison / logical results) on BOTH sides of every binary operator
+    for op in ("==", "!=", "<", ">", "<=", ">=", "+", "-", "*", "&", "|", "^", "<<", ">>", "&&", "||"):
+        items.append(dict(name=f"boolbool;{op}", text=f"{{ RdV = (RsV < 0) {op} (RtV < 0); ReV = (RsV && RtV) {op} (RuV || RtV); RxV = (!RsV) {op} (RtV == RuV); }}"))
+    # compound assignments with literal right operands (powers of two and others) on locals of four types and on registers
+    for t in ("uint32_t", "uint64_t", "int32_t", "uint8_t"):
+        for op in ("+=", "-=", "*=", "/=", "%=", "&=", "|=", "^=", "<<=", ">>="):
+            for lit in ("8", "6"):
+                items.append(dict(name=f"cmplit;{t};{op};{lit}", text=f"{{ {t} q = ({t}) RsV; q {op} {lit}; RddV = q; EA = RtV; EA {op} {lit}; ReV = EA; }}"))
     if bias != "sorts":
         # chained assignments: every link is an effect that has to be declared before the sequence that uses it
         for name, text in _sample(rng, gen.chained_assignments(random.Random(seed + 5), False), 24 if tier == "quick" else 120):
